@@ -94,9 +94,16 @@ def gen_lines(rng, ex, cid, st, count):
 
 def streams(ctx, scale=1):
     per = (130 if ctx.tier == "quick" else 2500) * scale
-    ex = pg.exe(ctx, "base")
+    res = []
+    for cfg in ["base", "p381"]:
+        res += _stream(ctx, cfg, per if cfg == "base" else max(60, per // 4))
+    return res
+
+
+def _stream(ctx, cfg, per):
+    ex = pg.exe(ctx, cfg)
     lines = ["cfg"]
-    for cid in IDS["base"]:
+    for cid in (IDS.get(cfg) or pg.pairing_ids(ex)):
         kv = pg.info(ex, cid)
         if "p" not in kv:
             continue
@@ -105,7 +112,7 @@ def streams(ctx, scale=1):
         lines.append("ep2_param %d" % cid)
         lines.append("pc_param %d" % cid)
         lines += gen_lines(ctx.rng, ex, cid, st, per)
-    return [{"name": "pc-base", "cfg": "base", "exe": ex, "lines": lines}]
+    return [{"name": "pc-" + cfg, "cfg": cfg, "exe": ex, "lines": lines}]
 
 
 def search_streams(ctx, mfail):
